@@ -207,6 +207,115 @@ fn run_pair<const N: usize, const M: usize>(cx: &mut Ctx, la: &[u8], ra: &[u8]) 
     flush_ledger(cx, PM | C02, "dropping the operands");
 }
 
+/// difference_ref on an *unsized* element type whose elements alias in memory: the universe is
+/// a family of pairwise different sub-slices of one static buffer, several of which start at the
+/// same address (prefixes) - equal addresses, unequal elements - and both operands draw from it.
+static SLICE_BUF: [u8; 4] = [1, 2, 3, 4];
+fn slice_universe(k: u8) -> Vec<&'static [u8]> {
+    let b = &SLICE_BUF;
+    let all: [&'static [u8]; 6] = [&b[0..0], &b[0..1], &b[0..2], &b[1..2], &b[0..3], &b[1..3]];
+    all[..(k as usize).min(6)].to_vec()
+}
+fn slice_index(u: &[&'static [u8]], x: &[u8]) -> Option<usize> {
+    u.iter().position(|e| std::ptr::eq(e.as_ptr(), x.as_ptr()) && e.len() == x.len())
+}
+fn run_slice_pair<const N: usize, const M: usize>(cx: &mut Ctx, la: &[u8], ra: &[u8], k: u8) {
+    let u = slice_universe(k);
+    cx.evaluations += 1;
+    if !la.is_empty() || !ra.is_empty() {
+        cx.nontrivial += 1;
+    }
+    cx.here.op = format!("difference_ref on Set<&[u8]> (aliasing sub-slices) L={la:?} (cap {N}) R={ra:?} (cap {M})");
+    let mut l: Set<&[u8], N> = Set::new();
+    for i in la {
+        l.insert(u[*i as usize]);
+    }
+    let mut r: Set<&[u8], M> = Set::new();
+    for i in ra {
+        r.insert(u[*i as usize]);
+    }
+    let lorder: Vec<usize> = l.iter().filter_map(|x| slice_index(&u, x)).collect();
+    cx.check(PM, lorder.len() == la.len(), || "the left operand does not hold its elements".to_string());
+    let want: Vec<usize> = lorder.iter().copied().filter(|i| !ra.contains(&(*i as u8))).collect();
+    let n = want.len();
+    let full: Vec<Option<usize>> = l.difference_ref(&r).map(|x| slice_index(&u, x)).collect();
+    cx.check(PM, full.iter().all(|x| x.is_some()), || format!("difference_ref yields a slice that is not an element of the left operand: {full:?}"));
+    let got: Vec<usize> = full.iter().flatten().copied().collect();
+    cx.check(PM, got == want, || format!("difference_ref yields elements #{got:?} but the mathematical result (in left order) is #{want:?} (universe {u:?})"));
+    for j in 0..=n + 1 {
+        let mut it = l.difference_ref(&r);
+        let mut consumed = 0usize;
+        for _ in 0..j {
+            let rem = n.saturating_sub(consumed);
+            let (lo, hi) = it.size_hint();
+            cx.check(PM, lo <= rem && hi.is_none_or(|h| rem <= h), || {
+                format!("difference_ref: after {consumed} of {n} items size_hint is ({lo}, {hi:?}) but {rem} are still to come")
+            });
+            if it.next().is_some() {
+                consumed += 1;
+            }
+        }
+        let rem = n.saturating_sub(consumed);
+        let (lo, hi) = it.size_hint();
+        cx.check(PM, lo <= rem && hi.is_none_or(|h| rem <= h), || {
+            format!("difference_ref: after {consumed} of {n} items size_hint is ({lo}, {hi:?}) but {rem} are still to come")
+        });
+        // (DifferenceRef over an unsized element type is not Clone: use fresh iterators advanced equally)
+        let advanced = |c: usize| {
+            let mut i2 = l.difference_ref(&r);
+            for _ in 0..c {
+                i2.next();
+            }
+            i2
+        };
+        let by_fold: Vec<Option<usize>> = advanced(consumed).fold(Vec::new(), |mut a, x| {
+            a.push(slice_index(&u, x));
+            a
+        });
+        let by_clone: Vec<Option<usize>> = advanced(consumed).map(|x| slice_index(&u, x)).collect();
+        let stepped: Vec<Option<usize>> = it.map(|x| slice_index(&u, x)).collect();
+        let tail: Vec<Option<usize>> = want[consumed.min(n)..].iter().map(|i| Some(*i)).collect();
+        cx.check(PM, stepped == tail && by_fold == tail && by_clone == tail, || {
+            format!("difference_ref after {consumed} items: next gives {stepped:?}, fold {by_fold:?}, a second iterator advanced equally {by_clone:?}; expected {tail:?}")
+        });
+    }
+    // the same operands through the other set operations (element type &[u8])
+    let mut inter: Vec<usize> = l.intersection(&r).filter_map(|x| slice_index(&u, x)).collect();
+    inter.sort_unstable();
+    let mut wi: Vec<usize> = lorder.iter().copied().filter(|i| ra.contains(&(*i as u8))).collect();
+    wi.sort_unstable();
+    cx.check(PM, inter == wi, || format!("intersection on Set<&[u8]> yields #{inter:?}, expected #{wi:?}"));
+    let nu = l.union(&r).count();
+    let mut all: Vec<u8> = la.iter().chain(ra.iter()).copied().collect();
+    all.sort_unstable();
+    all.dedup();
+    cx.check(PM, nu == all.len(), || format!("union on Set<&[u8]> yields {nu} items, expected {}", all.len()));
+    let sub = l.is_subset(&r);
+    cx.check(PM, sub == la.iter().all(|i| ra.contains(i)), || format!("is_subset on Set<&[u8]> is {sub}"));
+}
+
+fn run_slice_caps<const N: usize, const M: usize>(rep: &mut EngineReport, k: u8, threads: usize) {
+    let k = k.min(6);
+    let ls = arrangements(k, N);
+    let rs = arrangements(k, M);
+    let config = format!("difference_ref over {k} aliasing sub-slices of one buffer: Set<&[u8],{N}> x Set<&[u8],{M}>, {} x {} arrangements", ls.len(), rs.len());
+    let mut cx = rep.cx.fork();
+    cx.here.config = config.clone();
+    let t0 = std::time::Instant::now();
+    let n = ls.len() * rs.len();
+    par_states(n, threads, &mut cx, |i, lcx| {
+        let la = &ls[i / rs.len()];
+        let ra = &rs[i % rs.len()];
+        lcx.here.path = vec![format!("L={la:?}"), format!("R={ra:?}")];
+        lcx.here.path_idx = la.iter().map(|x| *x as u32).chain(std::iter::once(99)).chain(ra.iter().map(|x| *x as u32)).collect();
+        lcx.here.extra = format!("caps={N},{M} slices");
+        run_slice_pair::<N, M>(lcx, la, ra, k);
+    });
+    rep.configs.push(J::obj().set("config", config).set("pairs", n).set("wall_s", t0.elapsed().as_secs_f64()));
+    rep.transitions += n as u64;
+    rep.cx.merge(cx);
+}
+
 fn run_caps<const N: usize, const M: usize>(rep: &mut EngineReport, k: u8, threads: usize) {
     let ls = arrangements(k, N);
     let rs = arrangements(k, M);
@@ -237,6 +346,8 @@ macro_rules! caps_for {
         run_caps::<$K, $K>($rep, $k, $threads);
         run_caps::<$K, $K2>($rep, $k, $threads);
         run_caps::<$K2, $K>($rep, $k, $threads);
+        run_slice_caps::<$K, $K>($rep, $k, $threads);
+        run_slice_caps::<$K, $K2>($rep, $k, $threads);
     }};
 }
 
